@@ -128,6 +128,12 @@ func init() {
 			}
 			return Iface{}, true
 		},
+		rt + "NewFile":          inNewFile,
+		"(*os.File).Write":      inFileWrite,
+		"(*os.File).ReadAt":     inFileReadAt,
+		"(*os.File).Seek":       inFileSeek,
+		"(*os.File).Sync":       func(ex *Exec, c *callCtx) (Value, bool) { ex.osFileOf(c); return Iface{}, true },
+		"(*os.File).Close":      func(ex *Exec, c *callCtx) (Value, bool) { ex.osFileOf(c); return Iface{}, true },
 		rt + "TempDir": func(ex *Exec, c *callCtx) (Value, bool) { return ex.strConst("/verifrt-vfs"), true },
 		rt + "TouchFile": func(ex *Exec, c *callCtx) (Value, bool) {
 			p, ok := strConcrete(c.args[0].(Str))
@@ -1024,4 +1030,111 @@ func (ex *Exec) pairAxiom(a, b HashApp) *Term {
 	x := tt.Concat(append([]*Term(nil), a.In...)...)
 	y := tt.Concat(append([]*Term(nil), b.In...)...)
 	return tt.Implies(tt.Eq(a.App, b.App), tt.Eq(x, y))
+}
+
+// ---- *os.File model (verifrt.NewFile) ----
+
+const osFileCap = 256
+
+func inNewFile(ex *Exec, c *callCtx) (Value, bool) {
+	fp := ex.prog.Prog.ImportedPackage("os")
+	if fp == nil || fp.Type("File") == nil {
+		unsupported("verifrt.NewFile: package os not loaded")
+	}
+	obj := c.s.alloc(ex.zero(fp.Type("File").Type()))
+	arr := make(Agg, osFileCap)
+	for i := range arr {
+		arr[i] = ex.tt.BV(0, 8)
+	}
+	c.s.setOSFile(obj, osFile{content: c.s.alloc(arr)})
+	return Ptr{Obj: obj}, true
+}
+
+func (ex *Exec) osFileOf(c *callCtx) (int, osFile) {
+	p, ok := c.args[0].(Ptr)
+	if !ok {
+		unsupported("*os.File receiver")
+	}
+	f, ok := c.s.osFiles[p.Obj]
+	if !ok {
+		unsupported("*os.File not created by verifrt.NewFile")
+	}
+	return p.Obj, f
+}
+
+func (ex *Exec) ioEOF(s *State) Value {
+	ip := ex.prog.Prog.ImportedPackage("io")
+	if ip == nil || ip.Var("EOF") == nil {
+		unsupported("io.EOF not loaded")
+	}
+	return ex.load(s, Ptr{Obj: ex.globalObj(s, ip.Var("EOF"))})
+}
+
+func inFileWrite(ex *Exec, c *callCtx) (Value, bool) {
+	obj, f := ex.osFileOf(c)
+	b := c.args[1].(Slice)
+	n, ok := ex.concretize(c.s, b.Len, osFileCap, c.pend)
+	if !ok {
+		return nil, false
+	}
+	if f.pos+n > osFileCap {
+		unsupported("os.File model: file larger than %d bytes", osFileCap)
+	}
+	src := ex.sliceElems(c.s, b, n)
+	arr := append(Agg(nil), ex.load(c.s, Ptr{Obj: f.content}).(Agg)...)
+	for k := 0; k < n; k++ {
+		arr[f.pos+k] = src[k]
+	}
+	ex.store(c.s, Ptr{Obj: f.content}, arr)
+	f.pos += n
+	if f.pos > f.size {
+		f.size = f.pos
+	}
+	c.s.setOSFile(obj, f)
+	return Tuple{ex.tt.BV(uint64(n), 64), Iface{}}, true
+}
+
+func inFileReadAt(ex *Exec, c *callCtx) (Value, bool) {
+	_, f := ex.osFileOf(c)
+	b := c.args[1].(Slice)
+	n, ok := ex.concretize(c.s, b.Len, osFileCap, c.pend)
+	if !ok {
+		return nil, false
+	}
+	off, ok := ex.concretize(c.s, c.args[2].(*Term), osFileCap+1, c.pend)
+	if !ok {
+		return nil, false
+	}
+	if off >= f.size {
+		return Tuple{ex.tt.BV(0, 64), ex.ioEOF(c.s)}, true
+	}
+	m := n
+	if f.size-off < m {
+		m = f.size - off
+	}
+	arr := ex.load(c.s, Ptr{Obj: f.content}).(Agg)
+	for k := 0; k < m; k++ {
+		p := Ptr{Obj: b.Base.Obj, Path: extendPath(b.Base.Path, ex.elemPath(b.Off, ex.tt.BV(uint64(k), 64)))}
+		ex.store(c.s, p, arr[off+k])
+	}
+	var err Value = Iface{}
+	if m < n {
+		err = ex.ioEOF(c.s)
+	}
+	return Tuple{ex.tt.BV(uint64(m), 64), err}, true
+}
+
+func inFileSeek(ex *Exec, c *callCtx) (Value, bool) {
+	obj, f := ex.osFileOf(c)
+	wh := c.args[2].(*Term)
+	if !wh.IsConst() || wh.U64() != 0 {
+		unsupported("os.File.Seek: only io.SeekStart")
+	}
+	off, ok := ex.concretize(c.s, c.args[1].(*Term), osFileCap+1, c.pend)
+	if !ok {
+		return nil, false
+	}
+	f.pos = off
+	c.s.setOSFile(obj, f)
+	return Tuple{ex.tt.BV(uint64(off), 64), Iface{}}, true
 }
